@@ -308,6 +308,17 @@ func runC10(c *Ctx) {
 			bad = "pending handlers are not notified on close"
 		case clear == nil:
 			bad = "the pending list is not cleared on close: handlers would be invoked again"
+		case (!fi.CanReach(loopCall, clear) || fi.CanReach(clear, loopCall)) && c10Snapshot(c, fi, cw, clear):
+			// the loop runs over a snapshot of the list taken before the clear: same
+			// handlers, each once, cleared unconditionally before the first callback
+			if ok, r := c.Locks().SameRegion(fi, "nbhttp.ClientConn.mux", clear, loopCall); !ok {
+				bad = "the mutex is released at " + c.Pos(r) + " between clearing and notifying"
+			}
+			if first := cw.Blocks[0].Instrs[0]; bad == "" {
+				if esc := fi.EscapesWithout([]ssa.Instruction{first}, func(in ssa.Instruction) bool { return in == clear }); len(esc) > 0 {
+					bad = "a path reaches the return at " + c.Pos(esc[0]) + " without clearing the pending list"
+				}
+			}
 		case !fi.CanReach(loopCall, clear) || fi.CanReach(clear, loopCall):
 			bad = "the list is cleared before the pending handlers are notified"
 		default:
@@ -435,4 +446,27 @@ func singleStoreVal(a *ssa.Alloc) ssa.Value {
 		return v
 	}
 	return nil
+}
+
+// c10Snapshot: every indexing of a handler list inside a loop of fn uses a value
+// of ClientConn.handlers that was loaded before the clear.
+func c10Snapshot(c *Ctx, fi *ir.FnInfo, fn *ssa.Function, clear ssa.Instruction) bool {
+	n := 0
+	for _, b := range fn.Blocks {
+		for _, in := range b.Instrs {
+			ia, ok := in.(*ssa.IndexAddr)
+			if !ok || !fi.InLoop(in) {
+				continue
+			}
+			ld, ok := ir.Resolve(ia.X).(*ssa.UnOp)
+			if !ok || c.P.LoadedField(ld) != "nbhttp.ClientConn.handlers" {
+				continue
+			}
+			n++
+			if !fi.Dominates(ld, clear) || fi.CanReach(clear, ld) {
+				return false
+			}
+		}
+	}
+	return n > 0
 }
